@@ -330,7 +330,41 @@ def path_matches(path, suffix):
     return p == suffix or p.endswith("::" + suffix)
 
 
+def _unqualify(p):
+    """`<T as Trait>::m` -> `T::m` (also nested inside closure paths)."""
+    while p.startswith("<"):
+        depth = 0
+        end = -1
+        for i, c in enumerate(p):
+            if c == "<":
+                depth += 1
+            elif c == ">":
+                depth -= 1
+                if depth == 0:
+                    end = i
+                    break
+        if end < 0:
+            break
+        inner = p[1:end]
+        # split at top-level " as "
+        d = 0
+        cut = -1
+        for i in range(len(inner)):
+            c = inner[i]
+            if c == "<":
+                d += 1
+            elif c == ">":
+                d -= 1
+            elif d == 0 and inner.startswith(" as ", i):
+                cut = i
+                break
+        ty = inner[:cut] if cut >= 0 else inner
+        p = ty + p[end + 1:]
+    return p
+
+
 def strip_generics(p):
+    p = _unqualify(p)
     out = []
     depth = 0
     i = 0
@@ -647,13 +681,91 @@ class CallGraph:
                 is_async = any(a in callee for a in ASYNC_RECEIVERS)
                 if t["disp"] == "dyn" or (t["disp"] == "unresolved" and callee in facts.impls):
                     for impl in sorted(facts.impls.get(callee, ())):
-                        self.edges[f.path].append({"callee": impl, "kind": "dyn", "via": callee, "block": bi, "s": t["s"], "async": False})
+                        self.edges[f.path].append({"callee": impl, "kind": "dyn", "via": callee, "block": bi, "s": t["s"], "async": False, "disp": t["disp"]})
                     if not facts.impls.get(callee):
                         self.edges[f.path].append({"callee": callee, "kind": "dyn-extern", "via": callee, "block": bi, "s": t["s"], "async": False})
                 else:
                     self.edges[f.path].append({"callee": callee, "kind": "static", "via": callee, "block": bi, "s": t["s"], "async": False})
                 for c in t["clos"]:
                     self.edges[f.path].append({"callee": c, "kind": "closure", "via": callee, "block": bi, "s": t["s"], "async": is_async})
+                if t["disp"] == "static" and t.get("targs"):
+                    self.edges[f.path][-1 - len(t["clos"])]["self_ty"] = t["targs"][0]
+        self.body_of = {p: p for p in local}
+        self._specialise()
+
+    # ---- context for trait default methods ---------------------------------------------
+    def _specialise(self):
+        """A static call `<T as Trait>::m` that resolves to Trait's *default* body `Trait::m` is linked to a
+        specialised node `Trait::m{Self=T}` in which calls on Self to methods of the same trait go to T's
+        implementation only (instead of every implementor)."""
+        facts = self.facts
+        # trait -> self type -> method -> impl item path
+        table = defaultdict(lambda: defaultdict(dict))
+        defaults = set()
+        for titem, impls in facts.impls.items():
+            trait, _, meth = titem.rpartition("::")
+            for ip in impls:
+                if ip == titem:
+                    defaults.add(titem)
+                elif ip.startswith("<") and " as " in ip:
+                    ty = ip[1:ip.index(" as ")]
+                    table[trait][ty][meth] = ip
+        self._impl_table = table
+        work = []
+
+        def spec_name(default_item, ty):
+            return "%s{Self=%s}" % (default_item, ty)
+
+        def target_for(trait, ty, meth):
+            """node that `<ty as trait>::meth` executes."""
+            ip = table[trait].get(ty, {}).get(meth)
+            if ip is not None:
+                return ip
+            ditem = "%s::%s" % (trait, meth)
+            if ditem in defaults:
+                n = spec_name(ditem, ty)
+                if n not in self.body_of:
+                    self.body_of[n] = ditem
+                    self.local.add(n)
+                    work.append((n, ditem, trait, ty))
+                return n
+            return None
+
+        # 1. redirect static calls to default bodies with a concrete Self
+        for caller in list(self.edges.keys()):
+            for e in self.edges[caller]:
+                if e["kind"] == "static" and e["callee"] in defaults:
+                    ty = e.get("self_ty")
+                    trait = e["callee"].rpartition("::")[0]
+                    if ty and ty in table[trait]:
+                        e["callee"] = target_for(trait, ty, e["callee"].rpartition("::")[2])
+        # 2. build the specialised nodes
+        while work:
+            node, ditem, trait, ty = work.pop()
+            out = []
+            seen_sites = set()
+            for e in self.edges.get(ditem, ()):
+                via = e["via"]
+                vtrait, _, vmeth = via.rpartition("::")
+                if e["kind"] == "dyn" and vtrait == trait and e.get("disp") == "unresolved":
+                    key = (e["block"], via)
+                    if key in seen_sites:
+                        continue
+                    seen_sites.add(key)
+                    tgt = target_for(trait, ty, vmeth)
+                    if tgt is not None:
+                        out.append(dict(e, callee=tgt, kind="static", ctx=ty))
+                    continue
+                if e["kind"] == "static" and e["callee"] in defaults and e.get("self_ty") == "Self" and e["callee"].rpartition("::")[0] == trait:
+                    tgt = target_for(trait, ty, e["callee"].rpartition("::")[2])
+                    out.append(dict(e, callee=tgt, ctx=ty))
+                    continue
+                out.append(e)
+            self.edges[node] = out
+
+    def fn_of(self, node):
+        """The Fn whose body a call-graph node executes (specialised nodes share the default body)."""
+        return self.facts.fns.get(self.body_of.get(node, node))
 
     def callees(self, path, follow_async=False):
         for e in self.edges.get(path, ()):
